@@ -33,15 +33,15 @@ const (
 )
 
 type StrV struct {
-	Kind StrKind
-	S    string
-	B    []*Term
-	IP   []*Term // 4 or 16 bytes
-	Zone string
-	Port *Term // 16-bit
-	Host *StrV // non-IP host of a SHostPort
-	ID   int
-	Num  *Term // full-width number for SPortText produced by Itoa/Sprint
+	Kind    StrKind
+	S       string
+	B       []*Term
+	IP      []*Term // 4 or 16 bytes
+	Zone    string
+	Port    *Term // 16-bit
+	Host    *StrV // non-IP host of a SHostPort
+	ID      int
+	Num     *Term // full-width number for SPortText produced by Itoa/Sprint
 	lenTerm *Term
 }
 
